@@ -7,6 +7,7 @@ import SSV.Proofs.PipeExamples
 import SSV.Proofs.PipeRefine
 import SSV.Proofs.PipeSuccs
 import SSV.Proofs.PipeTimeout
+import SSV.Proofs.PipeTerm
 import SSV.Gen.C15
 /-
 C15 — the in-memory pipe (netio/pipe.go) is a faithful duplex stream with half-close and deadlines.
@@ -133,8 +134,8 @@ theorem handshake_paired {s : State} (r : Reachable s) (i : Nat) (k : RKind) (ac
 /-- NO STUCK STATE: in every reachable state every thread that is inside a call either can move right now,
 or sits in a `select` that has a `done` and a `deadline` alternative — and then it can move as soon as `done`
 is closed, as soon as the cancel channel it waits on is closed, or as soon as a partner sits in the matching
-select — or waits for `wrMu`, whose holder is another thread inside the write loop (itself subject to this
-theorem).  The committed hand-shake (`rAck` / `wAwait`) always has its partner at the matching point, so it
+select — or waits for `wrMu`, whose holder is another thread inside the write loop (itself subject to
+this theorem).  The committed hand-shake (`rAck` / `wAwait`) always has its partner at the matching point, so it
 falls under "can move right now". -/
 theorem no_stuck_state {s : State} (r : Reachable s) (i : Nat) :
     match s.thr i with
@@ -207,6 +208,37 @@ theorem no_deadlock_after_close {s : State} (r : Reachable s) (hd : s.done = tru
           | exact ⟨j, hj'⟩
           | exact ⟨j, hj'.2.1 hd⟩
           | simp at hj
+
+/-- ALL CALLS RETURN AFTER CLOSE, under every schedule: from a reachable state whose `done` is closed, with
+all threads `≥ N` idle, any run of `k` internal steps (thread-local, channel operations, timer, collecting a
+result — everything except the start of a new call) satisfies `k + measure s' ≤ measure s`; so no such run is
+longer than `measure N s`, whatever the scheduler does (no fairness assumption). -/
+theorem runs_bounded_after_close {N k : Nat} {s s' : State} (r : Reachable s) (hd : s.done = true)
+    (hb : Bounded N s) (run : IRun s k s') : k + measure N s' ≤ measure N s :=
+  (run_bounded run (inv_reachable r) hd hb).1
+
+/-- …and a run can only stop (no internal step enabled) when every call has returned and been collected:
+together with `runs_bounded_after_close`, every maximal run after a close ends, after at most `measure N s`
+steps, with all threads idle — no interleaving deadlocks. -/
+theorem quiescent_after_close_all_returned {s : State} (r : Reachable s) (hd : s.done = true)
+    (hq : ¬ ∃ s', IStep s s') (i : Nat) : s.thr i = .idle := by
+  have canMove_istep : ∀ j, CanMove s j → ∃ s', IStep s s' := by
+    intro j hj
+    rcases hj with ⟨s', h⟩ | ⟨j', s', h | h⟩ | ⟨j', s', h | h⟩
+    · exact ⟨s', .loc j h⟩
+    · exact ⟨s', .data j j' h⟩
+    · exact ⟨s', .data j' j h⟩
+    · exact ⟨s', .count j j' h⟩
+    · exact ⟨s', .count j' j h⟩
+  cases hp : s.thr i
+  case idle => rfl
+  case rRet => exact absurd ⟨s.setT i .idle, .finish i (by simp [finish, hp])⟩ hq
+  case wRet => exact absurd ⟨s.setT i .idle, .finish i (by simp [finish, hp])⟩ hq
+  case uRet => exact absurd ⟨s.setT i .idle, .finish i (by simp [finish, hp])⟩ hq
+  all_goals
+    exfalso; apply hq
+    obtain ⟨j, hj⟩ := no_deadlock_after_close r hd i (by simp [hp])
+    exact canMove_istep j hj
 
 /-! ### half-close, close-read, deadlines -/
 
@@ -405,6 +437,9 @@ example : Reachable Ex.d4 ∧ Ex.d4.rdl.closed = true ∧ Ex.d4.thr 1 = .rSel (.
 /-- a timeout step exists (`timeout_only_if_expired`): the blocked reader of `Ex.d4` takes its deadline alternative -/
 example : ∃ s', s' ∈ localSteps Ex.d4 1 ∧ (s'.thr 1).isTimeout = true ∧ s'.panicked = false :=
   ⟨Ex.d4.setT 1 (.rRet 0 .timeout), rSel_deadline_step Ex.d4_facts.2.1 (by decide), by decide, by decide⟩
+/-- a closed state with a pending call and a positive measure (`runs_bounded_after_close`) -/
+example : Reachable Ex.c3 ∧ Ex.c3.done = true ∧ Bounded 1 Ex.c3 ∧ measure 1 Ex.c3 = 1 ∧ IRun Ex.c3 0 Ex.c3 :=
+  ⟨Ex.c3_reachable, by decide, Ex.c3_bounded, by decide, .nil⟩
 example : PReachable ⟨init, init⟩ := .init
 
 end SSV.C15
@@ -431,3 +466,5 @@ end SSV.C15
 #print axioms SSV.C15.driver_explores_steps
 #print axioms SSV.C15.timeout_only_if_expired
 #print axioms SSV.C15.pipe_faithful_duplex_partial
+#print axioms SSV.C15.runs_bounded_after_close
+#print axioms SSV.C15.quiescent_after_close_all_returned
